@@ -15,9 +15,14 @@ import (
 	"bytes"
 	"context"
 	"crypto/sha256"
+	"encoding/json"
 	"errors"
 	"fmt"
+	"io"
+	"mime"
+	"net/http"
 	"net/http/httptest"
+	"sort"
 	"strconv"
 	"strings"
 	"time"
@@ -26,9 +31,12 @@ import (
 	ipns_pb "github.com/ipfs/boxo/ipns/pb"
 	"github.com/ipfs/boxo/path"
 	"github.com/ipfs/boxo/routing/http/client"
+	"github.com/ipfs/boxo/routing/http/filters"
 	"github.com/ipfs/boxo/routing/http/server"
 	"github.com/ipfs/boxo/routing/http/types"
 	"github.com/ipfs/boxo/routing/http/types/iter"
+	jsontypes "github.com/ipfs/boxo/routing/http/types/json"
+	"github.com/ipfs/boxo/routing/http/types/ndjson"
 	"github.com/ipfs/go-cid"
 	logging "github.com/ipfs/go-log/v2"
 	"github.com/libp2p/go-libp2p/core/crypto"
@@ -65,8 +73,10 @@ var addrPool = func() []multiaddr.Multiaddr {
 var filterNames = []string{"tcp", "udp", "quic-v1", "webtransport", "ws", "wss", "tls", "http", "webrtc-direct", "ip4", "ip6",
 	"dns4", "dns", "p2p-circuit", "unknown", "bogus", "quic"}
 
-var recProtocols = []string{"transport-bitswap", "transport-ipfs-gateway-http", "transport-graphsync-filecoinv1", "Transport-Bitswap", "x"}
-var filterProtocols = []string{"transport-bitswap", "transport-ipfs-gateway-http", "transport-graphsync-filecoinv1", "unknown", "x", "y"}
+var recProtocols = []string{"transport-bitswap", "transport-ipfs-gateway-http", "transport-graphsync-filecoinv1", "Transport-Bitswap", "x",
+	"transport-ä", "TRANSPORT-Ä", "σίσ", "ſtrasse", "\u212a"} // beyond ASCII: umlaut, Greek, long s, Kelvin sign
+var filterProtocols = []string{"transport-bitswap", "transport-ipfs-gateway-http", "transport-graphsync-filecoinv1", "unknown", "x", "y",
+	"TRANSPORT-Ä", "transport-ä", "ΣΊΣ", "strasse", "k", "\u212a"}
 
 func peerID(i int) peer.ID {
 	h := sha256.Sum256([]byte(fmt.Sprintf("peer-%d", i)))
@@ -139,8 +149,17 @@ func gen(r *vh.Rand, tier string, n int, emit func(vh.Case)) {
 	maxRecs := 30
 	for i := 0; i < n; i++ {
 		c := vh.Case{ID: strconv.Itoa(i)}
-		if r.Chance(1, 25) {
+		if r.Chance(1, 12) {
 			c.Ops = append(c.Ops, "srv 0 0 1", "ipns "+vh.Pick(r, []string{"ok", "ok", "badsig", "wrongname"}))
+			for j, m := 0, r.Range(1, 4); j < m; j++ {
+				if r.Bool() {
+					c.Ops = append(c.Ops, "put "+vh.Pick(r, []string{"ok", "ok", "noct", "badcid", "notname", "garbage", "toolong", "badsig",
+						"wrongname", "expired", "routererr"}))
+				} else {
+					c.Ops = append(c.Ops, fmt.Sprintf("getipns %s %s %s", vh.Pick(r, []string{"none", "wild", "ipns", "json", "json+ipns", "html"}),
+						vh.Pick(r, []string{"ok", "ok", "ok", "badcid", "notname"}), vh.Pick(r, []string{"found", "found", "notfound", "err"})))
+				}
+			}
 			emit(c)
 			continue
 		}
@@ -179,10 +198,60 @@ func gen(r *vh.Rand, tier string, n int, emit func(vh.Case)) {
 			recs = append(recs, fmt.Sprintf("%d:%d:%s:%s", schema, r.Intn(40), ps, as))
 		}
 		c.Ops = append(c.Ops, strings.TrimSpace("recs "+strings.Join(recs, " ")))
-		for j, m := 0, r.Range(1, 4); j < m; j++ {
-			c.Ops = append(c.Ops, fmt.Sprintf("find %s %d %s %s", vh.Pick(r, []string{"prov", "peers"}), r.Intn(2),
-				genFilter(r, filterNames, true, tier), genFilter(r, filterProtocols, false, tier)))
+		var params []string
+		nfind := r.Range(1, 4)
+		var finds []string
+		for j := 0; j < nfind; j++ {
+			fa, fp := genFilter(r, filterNames, true, tier), genFilter(r, filterProtocols, false, tier)
+			params = append(params, fa, fp)
+			if r.Chance(1, 3) {
+				finds = append(finds, fmt.Sprintf("raw %s %s %s %s", vh.Pick(r, []string{"prov", "peers"}),
+					vh.Pick(r, []string{"none", "json", "ndjson", "wild", "ndjson+json", "json+ndjson", "html", "html+ndjson", "jsonq+html",
+						"bad", "json+bad", "wild+ndjson", "html+html"}), fa, fp))
+			} else {
+				finds = append(finds, fmt.Sprintf("find %s %d %s %s", vh.Pick(r, []string{"prov", "peers"}), r.Intn(2), fa, fp))
+			}
 		}
+		// parameter tables: strings.ToLower of every parameter / term, strings.EqualFold of (protocol, lowered term)
+		lowers, folds := map[string]bool{}, map[string]bool{}
+		var terms []string
+		for _, prm := range params {
+			if prm == "-" {
+				continue
+			}
+			for _, x := range append([]string{prm}, strings.Split(prm, ",")...) {
+				if l := strings.ToLower(x); l != x {
+					lowers[x+"="+l] = true
+				}
+			}
+			terms = append(terms, strings.Split(strings.ToLower(prm), ",")...)
+		}
+		for _, rc := range recs {
+			if rc == "E" {
+				continue
+			}
+			ps := strings.Split(rc, ":")[2]
+			if ps == "-" {
+				continue
+			}
+			for _, pr := range strings.Split(ps, ",") {
+				for _, t := range terms {
+					if strings.EqualFold(pr, t) {
+						folds[pr+"~"+t] = true
+					}
+				}
+			}
+		}
+		keys := func(m map[string]bool) string {
+			var ks []string
+			for k := range m {
+				ks = append(ks, k)
+			}
+			sort.Strings(ks)
+			return strings.Join(ks, " ")
+		}
+		c.Ops = append(c.Ops, strings.TrimSpace("lowers "+keys(lowers)), strings.TrimSpace("folds "+keys(folds)))
+		c.Ops = append(c.Ops, finds...)
 		emit(c)
 	}
 }
@@ -198,8 +267,11 @@ type rec struct {
 }
 
 type router struct {
-	recs []rec
-	ipns map[string]*ipns.Record
+	recs     []rec
+	ipns     map[string]*ipns.Record
+	putCalls int
+	putErr   bool
+	getErr   bool
 }
 
 func (rt *router) maddrs(r rec) []types.Multiaddr {
@@ -251,6 +323,9 @@ func (rt *router) ProvideBitswap(context.Context, *server.BitswapWriteProvideReq
 }
 
 func (rt *router) GetIPNS(_ context.Context, name ipns.Name) (*ipns.Record, error) {
+	if rt.getErr {
+		return nil, errSource
+	}
 	if r, ok := rt.ipns[name.String()]; ok {
 		return r, nil
 	}
@@ -258,6 +333,10 @@ func (rt *router) GetIPNS(_ context.Context, name ipns.Name) (*ipns.Record, erro
 }
 
 func (rt *router) PutIPNS(_ context.Context, name ipns.Name, r *ipns.Record) error {
+	rt.putCalls++
+	if rt.putErr {
+		return errSource
+	}
 	rt.ipns[name.String()] = r
 	return nil
 }
@@ -299,7 +378,7 @@ func specKeep(r rec, fa, fp []string) (rec, bool) {
 				ok = true
 			}
 			for _, p := range r.protocols {
-				if strings.ToLower(p) == f {
+				if strings.EqualFold(p, f) { // case-insensitive = Unicode simple case folding
 					ok = true
 				}
 			}
@@ -543,6 +622,30 @@ func exec(c vh.Case, o *vh.Out) {
 				o.Nontrivial()
 			}
 			o.Emit("n=%d %s", len(got), strings.Join(got, ";"))
+		case "folds", "lowers":
+			// parameter tables of the model (strings.EqualFold / strings.ToLower as observed): cross-check them
+			for _, t := range f[1:] {
+				if f[0] == "folds" {
+					kv := strings.SplitN(t, "~", 2)
+					if !strings.EqualFold(kv[0], kv[1]) {
+						o.Fail("param-table", "EqualFold(%q,%q) is false", kv[0], kv[1])
+					}
+				} else {
+					kv := strings.SplitN(t, "=", 2)
+					if strings.ToLower(kv[0]) != kv[1] {
+						o.Fail("param-table", "ToLower(%q) != %q", kv[0], kv[1])
+					}
+				}
+			}
+			o.Emit("ok")
+		case "raw":
+			o.Emit("%s", rawFind(srv, rt, f, jsonLim, ndLim, stream, o))
+		case "put":
+			o.Kind("put-" + f[1])
+			o.Emit("%s", rawPut(srv, rt, f[1], o))
+		case "getipns":
+			o.Kind("getipns")
+			o.Emit("%s", rawGetIPNS(srv, rt, f[1], f[2], f[3], o))
 		case "ipns":
 			o.Kind("ipns-" + f[1])
 			o.Emit("%s", ipnsRoundTrip(ctx, srv, rt, f[1], o))
@@ -624,6 +727,247 @@ func ipnsRoundTrip(ctx context.Context, srv *httptest.Server, rt *router, kind s
 		o.Fail("ipns-round-trip", "valid record: put=%s get=%s", put, get)
 	}
 	return "put=" + put + " get=" + get
+}
+
+const (
+	mtJSON   = "application/json"
+	mtNDJSON = "application/x-ndjson"
+	mtIPNS   = "application/vnd.ipfs.ipns-record"
+)
+
+func acceptHeader(tok string) (string, bool) {
+	if tok == "none" {
+		return "", false
+	}
+	var parts []string
+	for _, t := range strings.Split(tok, "+") {
+		switch t {
+		case "json":
+			parts = append(parts, mtJSON)
+		case "jsonq":
+			parts = append(parts, mtJSON+"; q=0.5")
+		case "ndjson":
+			parts = append(parts, mtNDJSON)
+		case "wild":
+			parts = append(parts, "*/*")
+		case "html":
+			parts = append(parts, "text/html")
+		case "bad":
+			parts = append(parts, "a/b/c;;")
+		case "ipns":
+			parts = append(parts, mtIPNS)
+		}
+	}
+	return strings.Join(parts, ", "), true
+}
+
+// rawFind: a hand-made GET with an arbitrary Accept header; decodes the body by the Content-Type of the answer.
+func rawFind(srv *httptest.Server, rt *router, f []string, jsonLim, ndLim int, stream bool, o *vh.Out) string {
+	fa, fp := f[3], f[4]
+	if fa == "-" {
+		fa = ""
+	}
+	if fp == "-" {
+		fp = ""
+	}
+	u := srv.URL + "/routing/v1/providers/" + cid.NewCidV1(cid.Raw, []byte(peerID(1))).String()
+	if f[1] == "peers" {
+		u = srv.URL + "/routing/v1/peers/" + peer.ToCid(peerID(0)).String()
+	}
+	u = filters.AddFiltersToURL(u, split(fp), split(fa))
+	req, _ := http.NewRequest(http.MethodGet, u, nil)
+	if h, ok := acceptHeader(f[2]); ok {
+		req.Header.Set("Accept", h)
+	}
+	resp, err := srv.Client().Do(req)
+	if err != nil {
+		return "httperr"
+	}
+	defer resp.Body.Close()
+	o.Kind("raw-accept-" + f[2])
+	if resp.StatusCode != 200 {
+		return fmt.Sprintf("status=%d ct=- n=0 ", resp.StatusCode)
+	}
+	mt, _, _ := mime.ParseMediaType(resp.Header.Get("Content-Type"))
+	var got []string
+	ct := "-"
+	switch mt {
+	case mtJSON:
+		ct = "json"
+		if f[1] == "peers" {
+			var pr jsontypes.PeersResponse
+			if err := json.NewDecoder(resp.Body).Decode(&pr); err != nil {
+				return "decodeerr"
+			}
+			for _, p := range pr.Peers {
+				got = append(got, showPeer(p))
+			}
+		} else {
+			var pr jsontypes.ProvidersResponse
+			if err := json.NewDecoder(resp.Body).Decode(&pr); err != nil {
+				return "decodeerr"
+			}
+			for _, v := range pr.Providers {
+				if p, ok := v.(*types.PeerRecord); ok {
+					got = append(got, showPeer(p))
+				} else {
+					got = append(got, "schema="+v.GetSchema())
+				}
+			}
+		}
+	case mtNDJSON:
+		ct = "ndjson"
+		if f[1] == "peers" {
+			it := ndjson.NewPeerRecordsIter(resp.Body)
+			for it.Next() {
+				if v := it.Val(); v.Err == nil {
+					got = append(got, showPeer(v.Val))
+				}
+			}
+		} else {
+			it := ndjson.NewRecordsIter(resp.Body)
+			for it.Next() {
+				if v := it.Val(); v.Err == nil {
+					if p, ok := v.Val.(*types.PeerRecord); ok {
+						got = append(got, showPeer(p))
+					} else {
+						got = append(got, "schema="+v.Val.GetSchema())
+					}
+				}
+			}
+		}
+	}
+	// monitor: the cap is the one of the format that was answered; the records are the reference semantics
+	lim := jsonLim
+	if ct == "ndjson" {
+		lim = ndLim
+		if !stream {
+			o.Fail("ndjson-when-disabled", "NDJSON answer although streaming is disabled")
+		}
+	}
+	var want []string
+	for _, r := range rt.recs {
+		if r.err {
+			continue
+		}
+		if r2, ok := specKeep(r, split(fa), split(fp)); ok {
+			want = append(want, showRec(r2.peer, r2.protocols, r2.addrs))
+		}
+	}
+	if lim > 0 && len(want) > lim {
+		want = want[:lim]
+	}
+	if strings.Join(got, ";") != strings.Join(want, ";") {
+		o.Fail("raw-response", "%s accept=%s ct=%s limit=%d: got %v want %v", f[1], f[2], ct, lim, got, want)
+	}
+	return fmt.Sprintf("status=200 ct=%s n=%d %s", ct, len(got), strings.Join(got, ";"))
+}
+
+func mkKey(seed byte) (crypto.PrivKey, ipns.Name) {
+	sk, _, err := crypto.GenerateEd25519Key(bytes.NewReader(bytes.Repeat([]byte{seed}, 64)))
+	if err != nil {
+		panic(err)
+	}
+	pid, _ := peer.IDFromPrivateKey(sk)
+	return sk, ipns.NameFromPeer(pid)
+}
+
+// rawPut: hand-made PUT /routing/v1/ipns/{cid}; each scenario makes exactly one step of the handler fail.
+func rawPut(srv *httptest.Server, rt *router, sc string, o *vh.Out) string {
+	sk, name := mkKey(1)
+	_, other := mkKey(2)
+	p, _ := path.NewPath("/ipfs/bafkreifjjcie6lypi6ny7amxnfftagclbuxndqonfipmb64f2km2devei4")
+	eol := time.Now().Add(time.Hour)
+	if sc == "expired" {
+		eol = time.Now().Add(-time.Hour)
+	}
+	if sc == "toolong" {
+		p, _ = path.NewPath("/ipfs/bafkreifjjcie6lypi6ny7amxnfftagclbuxndqonfipmb64f2km2devei4/" + strings.Repeat("a", 12000))
+	}
+	record, err := ipns.NewRecord(sk, p, 7, eol, time.Minute)
+	if err != nil {
+		panic(err)
+	}
+	body, _ := ipns.MarshalRecord(record)
+	urlName := name.Cid().String()
+	ct := mtIPNS
+	switch sc {
+	case "noct":
+		ct = mtJSON
+	case "badcid":
+		urlName = "not-a-cid"
+	case "notname":
+		urlName = cid.NewCidV1(cid.Raw, []byte(peerID(3))).String()
+	case "garbage":
+		body = []byte("this is not a protobuf \xff\xff\xff")
+	case "badsig":
+		var pb ipns_pb.IpnsRecord
+		if err := proto.Unmarshal(body, &pb); err != nil {
+			panic(err)
+		}
+		pb.SignatureV2[0] ^= 1
+		body, _ = proto.Marshal(&pb)
+	case "wrongname":
+		urlName = other.Cid().String()
+	}
+	rt.putCalls, rt.putErr = 0, sc == "routererr"
+	before := len(rt.ipns)
+	req, _ := http.NewRequest(http.MethodPut, srv.URL+"/routing/v1/ipns/"+urlName, bytes.NewReader(body))
+	req.Header.Set("Content-Type", ct)
+	resp, err := srv.Client().Do(req)
+	if err != nil {
+		return "httperr"
+	}
+	resp.Body.Close()
+	rt.putErr = false
+	// monitor: an invalid record is rejected and never reaches the router; a valid one is stored
+	invalid := sc != "ok" && sc != "routererr"
+	if invalid && (rt.putCalls != 0 || len(rt.ipns) != before || resp.StatusCode == 200) {
+		o.Fail("ipns-invalid-accepted", "PUT scenario %s: status %d, router calls %d", sc, resp.StatusCode, rt.putCalls)
+	}
+	if sc == "ok" && (resp.StatusCode != 200 || rt.putCalls != 1) {
+		o.Fail("ipns-valid-rejected", "PUT of a valid record: status %d, router calls %d", resp.StatusCode, rt.putCalls)
+	}
+	return fmt.Sprintf("status=%d router=%d", resp.StatusCode, min(rt.putCalls, 1))
+}
+
+func rawGetIPNS(srv *httptest.Server, rt *router, acc, cidk, look string, o *vh.Out) string {
+	sk, name := mkKey(1)
+	p, _ := path.NewPath("/ipfs/bafkreifjjcie6lypi6ny7amxnfftagclbuxndqonfipmb64f2km2devei4")
+	record, _ := ipns.NewRecord(sk, p, 9, time.Now().Add(time.Hour), time.Minute)
+	raw, _ := ipns.MarshalRecord(record)
+	delete(rt.ipns, name.String())
+	rt.getErr = look == "err"
+	if look == "found" {
+		rt.ipns[name.String()] = record
+	}
+	urlName := name.Cid().String()
+	switch cidk {
+	case "badcid":
+		urlName = "not-a-cid"
+	case "notname":
+		urlName = cid.NewCidV1(cid.Raw, []byte(peerID(3))).String()
+	}
+	req, _ := http.NewRequest(http.MethodGet, srv.URL+"/routing/v1/ipns/"+urlName, nil)
+	if h, ok := acceptHeader(acc); ok {
+		req.Header.Set("Accept", h)
+	}
+	resp, err := srv.Client().Do(req)
+	rt.getErr = false
+	if err != nil {
+		return "httperr"
+	}
+	defer resp.Body.Close()
+	body, _ := io.ReadAll(resp.Body)
+	isRec := 0
+	if strings.Contains(resp.Header.Get("Content-Type"), mtIPNS) && bytes.Equal(body, raw) {
+		isRec = 1
+	}
+	if isRec == 1 && look != "found" {
+		o.Fail("ipns-get-phantom", "GET returned a record the router does not have")
+	}
+	delete(rt.ipns, name.String())
+	return fmt.Sprintf("status=%d record=%d", resp.StatusCode, isRec)
 }
 
 func main() { vh.Main(vh.Config{Gen: gen, Exec: exec}) }
